@@ -13,15 +13,77 @@ GENERIC = "\u0001"  # stands for every character that no pattern / replacement /
 def _replace_chain(t: T, var: T):
     """t = var.replace(a,b).replace(c,d)... -> [(a,b),(c,d)] (innermost first) or None."""
     chain = []
+
+    def lit(x):
+        """a string constant, also when spelled as a constant expression (ESC * 2, ESC + SEP, f"\\{SEP}")"""
+        if is_str_const(x):
+            return const_value(x)
+        if contains(x, lambda s_: s_.op in ("param", "elem", "loopvar", "attr", "call", "sub")):
+            return None
+        try:
+            from ..region import concrete
+            v = concrete(x, {})
+        except Exception:  # noqa: BLE001 - not a constant expression of the modelled kind
+            return None
+        return v if isinstance(v, str) else None
     while t is not var:
         if t.op == "call" and t.args[0].op == "attr" and t.args[0].args[1] == "replace" and len(t.args[1]) == 2 \
-                and not t.args[2] and all(is_str_const(x) for x in t.args[1]):
-            chain.append((const_value(t.args[1][0]), const_value(t.args[1][1])))
+                and not t.args[2] and all(lit(x) is not None for x in t.args[1]):
+            chain.append((lit(t.args[1][0]), lit(t.args[1][1])))
             t = t.args[0].args[0]
         else:
             return None
     chain.reverse()
     return chain
+
+
+def _identity_fast_path(A, core, fc):
+    """core = ite(c, fast, slow) where c holds only if no element of the table contains any of the characters C (`not any(a in n or
+    b in n for n in table...)`), slow escapes by n.replace(x, ..) for x in X with X a subset of C, and fast is slow with the escape
+    left out: on the tables where fast is taken the escape is the identity, so both branches compute slow.  Returns slow, or None."""
+    from ..terms import substitute
+    c, t_, e_ = core.args
+    lits = list(c.args[0]) if c.op == "and" else [c]
+    tested = None
+    negated = False
+    for l in lits:
+        inner = l.args[0] if l.op == "not" else None
+        pos = l if l.op == "call" else None
+        for cand, neg_ in ((inner, True), (pos, False)):
+            if cand is not None and cand.op == "call" and cand.args[0] is glob("builtins.any") and len(cand.args[1]) == 1 \
+                    and cand.args[1][0].op == "comp" and len(cand.args[1][0].args[2]) == 1 and not cand.args[1][0].args[2][0][1] \
+                    and contains(cand.args[1][0].args[2][0][0], lambda s_: s_ is fc):
+                g = cand.args[1][0]
+                n = mk("elem", g.args[2][0][0])
+                P = g.args[1]
+                parts = list(P.args[0]) if P.op == "or" else [P]
+                if all(x.op == "cmp" and x.args[0] == "in" and x.args[2] is n and is_str_const(x.args[1]) for x in parts):
+                    tested = {A.C.canon(x.args[1]) for x in parts}
+                    negated = neg_
+    if tested is None:
+        return None
+    # `not any(..)` selects the then-branch as the fast one; `any(..)` the else-branch (only the single-literal form)
+    if negated:
+        fast, slow = t_, e_
+    elif c.op == "call":
+        fast, slow = e_, t_
+    else:
+        return None
+    cur = slow
+    for _ in range(6):
+        mapping = {}
+        for s_ in subterms(cur):
+            if s_.op == "call" and s_.args[0].op == "attr" and s_.args[0].args[1] == "replace" and len(s_.args[1]) == 2 and not s_.args[2]:
+                if A.C.canon(s_.args[1][0]) in tested:
+                    mapping[s_] = s_.args[0].args[0]
+                else:
+                    return None      # the escape touches a character the table test does not look for
+            if s_.op == "comp" and s_.args[0] == "list" and len(s_.args[2]) == 1 and not s_.args[2][0][1] and s_.args[1] is mk("elem", s_.args[2][0][0]):
+                mapping[s_] = s_.args[2][0][0]     # [x for x in xs] read as an iterable is xs
+        if not mapping:
+            break
+        cur = substitute(cur, mapping)
+    return slow if (cur is not slow and A.eq(cur, fast)) else None
 
 
 def check(ctx):
@@ -78,6 +140,10 @@ def check(ctx):
             violated = ("rows are de-duplicated with np.unique over " + (show(key_arr, maxdepth=3)[:60] if key_arr is not None else "?") +
                         ", which does not identify the value tuple (e.g. a plain concatenation of the columns): different tuples with "
                         "the same key share one merged name")
+    if violated is None and core is not None and core.op == "ite" and contains(core.args[0], lambda s: s is fc):
+        same = _identity_fast_path(A, core, fc)
+        if same is not None:
+            core = same    # the branch without escaping is taken only when escaping changes nothing: one encoding after all
     if violated is None and core is not None and core.op == "ite" and contains(core.args[0], lambda s: s is fc):
         violated = ("the encoding is chosen by a test on the whole table (" + show(core.args[0], maxdepth=3)[:80] + "): the same value "
                     "tuple can be keyed differently in two calls (fit vs. predict), so rows no longer group by tuple equality")
@@ -297,7 +363,7 @@ def _r134_fit(ctx):
     # grouping column of _reformat_and_group_data is the sensitive-feature column
     r = A.run(M_TO + ":_reformat_and_group_data")
     g = [e for e in r.events if e.kind == "call" and e.data["fterm"].op == "attr" and e.data["fterm"].args[1] == "groupby"]
-    ok = bool(g) and A.eq(arg(g[0], 0), A.entry(r, "SENSITIVE_FEATURE_KEY if sensitive_feature_names is None else sensitive_feature_names[0]"))
+    ok = bool(g) and arg(g[0], 0, "by") is not None and A.eq(arg(g[0], 0, "by"), A.entry(r, "SENSITIVE_FEATURE_KEY if sensitive_feature_names is None else sensitive_feature_names[0]"))
     ctx.ob("R13.4", r.func, g[0].node if g else None, ok, "the training frame is grouped by the (merged) sensitive-feature "
            "column", construct="groupby column")
 
